@@ -17,7 +17,7 @@ theorem delete_migrates (s : St) (h : Nat) (hh : h ≠ 0) (hex : s.heaps.contain
     (∀ p ∈ (step s (.delete h)).owner, p.2 ≠ h) := by
   have hmem : h ∈ s.heaps := by simpa using hex
   have hc : (h != 0 && s.heaps.contains h) = true := by simp [hh, hmem]
-  simp only [step, hc, if_true]
+  simp only [step, hc, if_true, deleteHeap]
   refine ⟨?_, ?_, ?_, ?_⟩
   · rw [List.map_map]; apply List.map_congr_left; intro p _; simp only [Function.comp]; split <;> rfl
   · intro b g hm hg; subst hg; exact List.mem_map.mpr ⟨(b, g), hm, by simp⟩
@@ -29,20 +29,27 @@ theorem delete_migrates (s : St) (h : Nat) (hh : h ≠ 0) (hex : s.heaps.contain
     · simp [hq]
 
 /-- `mi_heap_destroy` releases every block of that heap and nothing else -/
-theorem destroy_exact (s : St) (h : Nat) (hh : h ≠ 0) (hex : s.heaps.contains h = true) :
+theorem destroy_exact (s : St) (h : Nat) (hh : h ≠ 0) (hex : s.heaps.contains h = true) (hd : s.nod.contains h = false) :
     ∀ b g, (b, g) ∈ (step s (.destroy h)).owner ↔ ((b, g) ∈ s.owner ∧ g ≠ h) := by
   have hmem : h ∈ s.heaps := by simpa using hex
   have hc : (h != 0 && s.heaps.contains h) = true := by simp [hh, hmem]
   intro b g
-  simp only [step, hc, if_true, List.mem_filter, bne_iff_ne, ne_eq]
+  simp only [step, hc, if_true, hd, Bool.false_eq_true, if_false, List.mem_filter, bne_iff_ne, ne_eq]
+
+/-- `mi_heap_destroy` of a heap that was not created with `allow_destroy` (it may hold pages reclaimed from other threads) frees nothing:
+    it behaves exactly as `mi_heap_delete` -/
+theorem destroy_of_nondestroyable_is_delete (s : St) (h : Nat) (hd : s.nod.contains h = true) :
+    step s (.destroy h) = step s (.delete h) := by
+  simp only [step, hd, if_true]
 
 /-- when the default heap is deleted or destroyed, the default falls back to the backing heap; otherwise the default is unchanged -/
 theorem default_falls_back (s : St) (h : Nat) (hh : h ≠ 0) (hex : s.heaps.contains h = true) :
     (step s (.delete h)).dflt = (if s.dflt = h then 0 else s.dflt) ∧ (step s (.destroy h)).dflt = (if s.dflt = h then 0 else s.dflt) := by
   have hmem : h ∈ s.heaps := by simpa using hex
   have hc : (h != 0 && s.heaps.contains h) = true := by simp [hh, hmem]
-  simp only [step, hc, if_true, beq_iff_eq]
-  exact ⟨trivial, trivial⟩
+  simp only [step, hc, if_true, beq_iff_eq, deleteHeap]
+  refine ⟨trivial, ?_⟩
+  split <;> simp
 
 /-- a block is attributed to exactly the heap it was allocated in: allocation records the heap, no other block changes owner -/
 theorem alloc_owner (s : St) (h b : Nat) (hex : exists_ s h = true) (hfresh : s.owner.any (·.1 == b) = false) :
@@ -62,11 +69,47 @@ theorem init_ok : Ok init := ⟨(fun p hp => by cases hp), rfl⟩
 
 theorem exists_iff (s : St) (h : Nat) : exists_ s h = true ↔ h = 0 ∨ h ∈ s.heaps := by simp [exists_]
 
-theorem step_ok (s : St) (op : Op) (h : Ok s) : Ok (step s op) := by
+theorem deleteHeap_ok (s : St) (g : Nat) (h : Ok s) : Ok (deleteHeap s g) := by
   obtain ⟨h1, h2⟩ := h
-  unfold Ok
+  unfold Ok deleteHeap
+  refine ⟨fun p hp => ?_, ?_⟩
+  · obtain ⟨q, hq, rfl⟩ := List.mem_map.mp hp
+    have := (exists_iff s q.2).mp (h1 q hq)
+    rw [exists_iff]
+    by_cases e : q.2 = g
+    · simp [e]
+    · simp only [beq_iff_eq, e, if_false, List.mem_filter, bne_iff_ne, ne_eq]
+      rcases this with e0 | e1
+      · exact Or.inl e0
+      · exact Or.inr ⟨e1, by first | exact e | exact not_false⟩
+  · have := (exists_iff s s.dflt).mp h2
+    rw [exists_iff]
+    by_cases e : s.dflt = g
+    · simp [e]
+    · simp only [beq_iff_eq, e, if_false, List.mem_filter, bne_iff_ne, ne_eq]
+      rcases this with e0 | e1
+      · exact Or.inl e0
+      · exact Or.inr ⟨e1, by first | exact e | exact not_false⟩
+
+theorem step_ok (s : St) (op : Op) (h : Ok s) : Ok (step s op) := by
+  have h0 := h
+  obtain ⟨h1, h2⟩ := h
   cases op with
   | new g =>
+    unfold Ok
+    simp only [step]; split
+    · exact ⟨h1, h2⟩
+    · refine ⟨fun p hp => ?_, ?_⟩
+      · have := (exists_iff s p.2).mp (h1 p hp)
+        rw [exists_iff]; simp only [List.mem_cons]; rcases this with e | e
+        · exact Or.inl e
+        · exact Or.inr (Or.inr e)
+      · have := (exists_iff s s.dflt).mp h2
+        rw [exists_iff]; simp only [List.mem_cons]; rcases this with e | e
+        · exact Or.inl e
+        · exact Or.inr (Or.inr e)
+  | newNoDestroy g =>
+    unfold Ok
     simp only [step]; split
     · exact ⟨h1, h2⟩
     · refine ⟨fun p hp => ?_, ?_⟩
@@ -79,6 +122,7 @@ theorem step_ok (s : St) (op : Op) (h : Ok s) : Ok (step s op) := by
         · exact Or.inl e
         · exact Or.inr (Or.inr e)
   | alloc g b =>
+    unfold Ok
     simp only [step]; split
     · rename_i hc; simp only [Bool.and_eq_true] at hc
       refine ⟨fun p hp => ?_, h2⟩
@@ -87,6 +131,7 @@ theorem step_ok (s : St) (op : Op) (h : Ok s) : Ok (step s op) := by
       · exact h1 p hp
     · exact ⟨h1, h2⟩
   | allocDefault b =>
+    unfold Ok
     simp only [step]; split
     · refine ⟨fun p hp => ?_, h2⟩
       rcases List.mem_cons.mp hp with rfl | hp
@@ -96,45 +141,32 @@ theorem step_ok (s : St) (op : Op) (h : Ok s) : Ok (step s op) := by
   | free b => exact ⟨fun p hp => h1 p (List.mem_filter.mp hp).1, h2⟩
   | delete g =>
     simp only [step]; split
-    · refine ⟨fun p hp => ?_, ?_⟩
-      · obtain ⟨q, hq, rfl⟩ := List.mem_map.mp hp
-        have := (exists_iff s q.2).mp (h1 q hq)
-        rw [exists_iff]
-        by_cases e : q.2 = g
-        · simp [e]
-        · simp only [beq_iff_eq, e, if_false, List.mem_filter, bne_iff_ne, ne_eq]
-          rcases this with e0 | e1
-          · exact Or.inl e0
-          · exact Or.inr ⟨e1, by first | exact e | exact not_false⟩
-      · have := (exists_iff s s.dflt).mp h2
-        rw [exists_iff]
-        by_cases e : s.dflt = g
-        · simp [e]
-        · simp only [beq_iff_eq, e, if_false, List.mem_filter, bne_iff_ne, ne_eq]
-          rcases this with e0 | e1
-          · exact Or.inl e0
-          · exact Or.inr ⟨e1, by first | exact e | exact not_false⟩
-    · exact ⟨h1, h2⟩
+    · exact deleteHeap_ok s g h0
+    · exact h0
   | destroy g =>
     simp only [step]; split
-    · refine ⟨fun p hp => ?_, ?_⟩
-      · obtain ⟨hq, hne⟩ := List.mem_filter.mp hp
-        have := (exists_iff s p.2).mp (h1 p hq)
-        simp only [bne_iff_ne, ne_eq] at hne
-        rw [exists_iff]; simp only [List.mem_filter, bne_iff_ne, ne_eq]
-        rcases this with e0 | e1
-        · exact Or.inl e0
-        · exact Or.inr ⟨e1, hne⟩
-      · have := (exists_iff s s.dflt).mp h2
-        rw [exists_iff]
-        by_cases e : s.dflt = g
-        · simp [e]
-        · simp only [beq_iff_eq, e, if_false, List.mem_filter, bne_iff_ne, ne_eq]
+    · split
+      · exact deleteHeap_ok s g h0
+      · unfold Ok
+        refine ⟨fun p hp => ?_, ?_⟩
+        · obtain ⟨hq, hne⟩ := List.mem_filter.mp hp
+          have := (exists_iff s p.2).mp (h1 p hq)
+          simp only [bne_iff_ne, ne_eq] at hne
+          rw [exists_iff]; simp only [List.mem_filter, bne_iff_ne, ne_eq]
           rcases this with e0 | e1
           · exact Or.inl e0
-          · exact Or.inr ⟨e1, by first | exact e | exact not_false⟩
-    · exact ⟨h1, h2⟩
+          · exact Or.inr ⟨e1, hne⟩
+        · have := (exists_iff s s.dflt).mp h2
+          rw [exists_iff]
+          by_cases e : s.dflt = g
+          · simp [e]
+          · simp only [beq_iff_eq, e, if_false, List.mem_filter, bne_iff_ne, ne_eq]
+            rcases this with e0 | e1
+            · exact Or.inl e0
+            · exact Or.inr ⟨e1, by first | exact e | exact not_false⟩
+    · exact h0
   | setDefault g =>
+    unfold Ok
     simp only [step]; split
     · rename_i hc; exact ⟨h1, hc⟩
     · exact ⟨h1, h2⟩
@@ -147,6 +179,7 @@ theorem reachable_ok (ops : List Op) : Ok (ops.foldl step init) := by
 
 -- non-vacuity
 example : (([.new 1, .alloc 1 7, .allocDefault 8, .setDefault 1, .allocDefault 9, .delete 1] : List Op).foldl step init)
-    = { heaps := [], owner := [(9, 0), (8, 0), (7, 0)], dflt := 0 } := by decide
+    = { heaps := [], owner := [(9, 0), (8, 0), (7, 0)], dflt := 0, nod := [] } := by decide
+example : (([.newNoDestroy 2, .alloc 2 5, .destroy 2] : List Op).foldl step init) = { heaps := [], owner := [(5, 0)], dflt := 0, nod := [] } := by decide
 
 end C10
